@@ -874,6 +874,8 @@ def enumerate_cases(tier, seed):
 
 
 def check(run):
+    from props import C17_proof
+    C17_proof.prove(run)
     cases = enumerate_cases(run.tier, run.seed)
     leds = run_cases(run, worker, cases)
     obs = [o for led in leds for o in getattr(led, "obs", []) if o]
